@@ -53,7 +53,7 @@ mod vx_proofs {
         }
     }
 }
-''' % (L, max(L + 3, 10), prog.name, prog.inner.name, prog.name, err_ty(prog), prog.inner.name, err_ty(prog), arms(prog))
+''' % (L, (max(L + 3, 10) if err_ty(prog) == 'PErr' else L + 3), prog.name, prog.inner.name, prog.name, err_ty(prog), prog.inner.name, err_ty(prog), arms(prog))
     def kani_harnesses(self, ctx, prog):
         return [('phf_equals_plain', 'from_str')]
     def extra_checks(self, ctx, progs, items):
